@@ -159,6 +159,19 @@ func (cls *CachedLocations) Open(ctx *Context, sys *System, name string, check b
 	}
 
 	cls.Unlock()
+
+	if check {
+		// The cached location might have been opened without
+		// an existence check (as somebody's parent, say).
+		created, err := locationCreated(ctx, loc)
+		if err == nil && !created {
+			err = NewNotFoundError("%s", name)
+		}
+		if err != nil {
+			return nil, err
+		}
+	}
+
 	return loc, err
 }
 
@@ -1134,6 +1147,13 @@ func (sys *System) ClearLocation(ctx *Context, location string) error {
 		Log(DEBUG, ctx, "System.ClearLocation", "location", location)
 		Metric(ctx, "System.ClearLocation", "location", location)
 		err = loc.Clear(ctx)
+		if err == nil && sys.checkingExistence(ctx) {
+			// Clearing removes the location's facts, not the
+			// location: it stays created.  (Otherwise whether
+			// the next request finds the location depends on
+			// whether it is still cached.)
+			err = markLocationCreated(ctx, loc)
+		}
 		if err != nil {
 			Log(ERROR, ctx, "System.ClearLocation", "location", location, "error", err, "when", "clear")
 		} else {
